@@ -250,9 +250,7 @@ func decryptSymmetricAEAD(aead cipher.AEAD, ciphertext []byte, nonce []byte, tag
 		return nil, ErrInvalidTag
 	}
 
-	// Add the tag at the end of the ciphertext
-	ciphertext = append(ciphertext, tag...)
-	return aead.Open(nil, nonce, ciphertext, associatedData)
+	return aead.Open(nil, nonce, joinCiphertextAndTag(ciphertext, tag), associatedData)
 }
 
 func encryptSymmetricAESKW(plaintext []byte, algorithm string, key []byte) (ciphertext []byte, err error) {
@@ -310,9 +308,16 @@ func decryptSymmetricChaCha20Poly1305(ciphertext []byte, algorithm string, key [
 		return nil, ErrInvalidTag
 	}
 
-	// Add the tag at the end of the ciphertext
-	ciphertext = append(ciphertext, tag...)
-	return aead.Open(nil, nonce, ciphertext, associatedData)
+	return aead.Open(nil, nonce, joinCiphertextAndTag(ciphertext, tag), associatedData)
+}
+
+// joinCiphertextAndTag returns the ciphertext with the tag added at the end, as expected by cipher.AEAD.
+// The result is a new slice: appending to the ciphertext would write into the caller's spare capacity.
+func joinCiphertextAndTag(ciphertext []byte, tag []byte) []byte {
+	out := make([]byte, len(ciphertext)+len(tag))
+	copy(out, ciphertext)
+	copy(out[len(ciphertext):], tag)
+	return out
 }
 
 func getChaCha20Poly1305Cipher(algorithm string, key []byte, nonce []byte) (aead cipher.AEAD, err error) {
